@@ -137,7 +137,7 @@ def realnet_flush(chk, quick):
                                 pass
                         exp, obs = exp_body, body
                     cid = len(cases) + 1
-                    cases.append({'id': cid, 'explen': len(exp), 'expsum': _sum(exp), 'gotlen': len(obs), 'gotsum': _sum(obs), 'eof': eof,
+                    cases.append({'id': cid, 'prop': 'C07', 'who': 'client', 'explen': len(exp), 'expsum': _sum(exp), 'gotlen': len(obs), 'gotsum': _sum(obs), 'eof': eof,
                                   'wait_ms': wait_ms, 'limit_ms': 5000})
                     descs[cid] = {'mode': mode, 'output': kind, 'client': pace[0], 'bytes_expected': len(exp), 'bytes_received': len(obs), 'eof': eof,
                                   'close_after_last_byte_ms': wait_ms}
